@@ -329,6 +329,11 @@ class StreamWriter(AbstractStreamWriter):
             self._eof = True
             return
 
+        if chunk and self.length is not None:
+            # Same as write(): do not exceed the declared Content-Length
+            chunk = chunk[: self.length]
+            self.length -= len(chunk)
+
         # No compression - send buffered headers if not yet sent
         if self._headers_buf and not self._headers_written:
             # Use helper to send headers with payload
